@@ -320,6 +320,39 @@ def corpus():
              "b": one([0, 1], [[[0, 2], [1]], [[1, 0], [-2]]])}]
 
 
+NONFINITE = [
+    # (dividend, divisor) as Python expressions over q0, q1, nan, inf: the division must come back (D42)
+    ("q0**2+1", "nan"), ("q0**2+1", "nan*q0"), ("q0**2+1", "nan*q0+1"), ("q0**2+1", "q0+nan"), ("nan*q0**2+q0", "q0+1"),
+    ("q0**3+nan", "q0+1"), ("[nan*q0**2+q0, q0**3+1]", "q0+1"), ("[q0**2+q0, q0**3+1]", "[nan*q0+1, q0+nan]"),
+    ("inf*q0**2+1", "q0+1"), ("q0**2+1", "inf*q0+1"), ("q0**2+1", "inf"), ("q0*q1+q1**2", "nan*q1+q0"),
+    ("q0**2*q1+1", "q1+nan*q0"), ("[[q0**2, q1**2], [nan, 1]]", "[q0+1, nan*q1]"), ("-inf*q0", "inf*q0"), ("nan", "nan"),
+]
+
+
+def check_nonfinite(ctx):
+    """coefficients that are not numbers: nothing is claimed about the values, the division has to terminate"""
+    import warnings
+    q0, q1 = numpoly.variable(2)
+    env = {"q0": q0, "q1": q1, "nan": numpy.nan, "inf": numpy.inf}
+    for a_txt, b_txt in NONFINITE:
+        case = {"kind": "nonfinite", "dividend": a_txt, "divisor": b_txt}
+        ctx.evaluations += 1
+        ctx.count("nonfinite")
+        try:
+            with warnings.catch_warnings():
+                warnings.simplefilter("ignore")
+                a = numpoly.polynomial(eval(a_txt, env))     # noqa: S307 - fixed table above
+                b = numpoly.polynomial(eval(b_txt, env))     # noqa: S307
+                with time_limit(10):
+                    q, r = numpoly.poly_divmod(a, b)
+            if q.shape != numpy.broadcast_shapes(a.shape, b.shape) or r.shape != q.shape:
+                ctx.fail(case, f"poly_divmod({a_txt}, {b_txt}): shapes {q.shape}, {r.shape}", ["nonfinite", "shape"])
+        except CaseTimeout:
+            ctx.fail(case, f"poly_divmod({a_txt}, {b_txt}) did not terminate within 10 s", ["nonfinite", "termination"])
+        except Exception as err:  # noqa: BLE001
+            ctx.fail(case, f"poly_divmod({a_txt}, {b_txt}) raised {type(err).__name__}: {str(err)[:100]}", ["nonfinite", "raises"])
+
+
 def run(ctx):
     ctx.rule = RULE
     rng = ctx.rng("cases")
@@ -343,11 +376,17 @@ def run(ctx):
             check_model(ctx, c, out, next(answers))
     check_operators(ctx, ctx.rng("operators"), 40 if ctx.quick else 400)
     check_history(ctx, ctx.rng("history"), 30 if ctx.quick else 300)
+    check_nonfinite(ctx)
     ctx.sample({"dividend": cases[0]["a"], "divisor": cases[0]["b"], "note": "witness of the former 2-cycle (D3)"})
     ctx.extra["argument_monitor"] = {"calls": monitor.calls, "mutations": monitor.events[:5]}
 
 
 def replay(ctx, case):
+    if case.get("kind") == "nonfinite":
+        n0 = len(ctx.failures)
+        check_nonfinite(ctx)
+        hits = [f for f in ctx.failures[n0:] if f["case"]["dividend"] == case["dividend"] and f["case"]["divisor"] == case["divisor"]]
+        return hits[0]["what"] if hits else None
     if case.get("kind") == "history":
         n0 = len(ctx.failures)
         from ..core import make_rng
